@@ -30,7 +30,7 @@ def expressions(tier):
         out.append('(%s-%s)/%s' % (a, b, c))
         if tier == 'thorough':
             out.append('-%s**%s - +%s' % (a, b, c))
-            out.append('%s if %s > %s else 2' % (a, b, c))
+            out.append('(%s > %s)*%s' % (a, b, c))
     for f, a in itertools.product(NAMES, atoms):
         out.append('%s(%s)' % (f, a))
         out.append('%s (k -1 )+%s' % (f, a))
